@@ -411,13 +411,14 @@ class RefCookieStore:
             expiry, persistent = a_expires, True
             src = "expires+invalid-max-age" if invalid_maxage else "expires"
         if domain_attr:
-            if not domain_match(host, domain_attr):
-                return SetOutcome("ignored", "domain-mismatch", profile=prof)
             host_only, domain = False, domain_attr
         else:
             host_only, domain = True, host
         path = path_attr if path_attr is not None else default_path(rpath)
         c = Cookie(p.name, p.value, domain, host_only, path, secure, http_only, persistent, expiry, src, -1, host, now)
+        if domain_attr and not domain_match(host, domain_attr):
+            # 5.3 step 6: ignored entirely; `cookie` says what it would have been (for classification only)
+            return SetOutcome("ignored", "domain-mismatch", cookie=c, profile=prof)
         return SetOutcome("stored", cookie=c, profile=prof)
 
     def set_cookie(self, header: str, url: str) -> SetOutcome:
